@@ -62,6 +62,12 @@ def build_classes(layout='base-both'):
         iface, name, sig, access, emits, attr, base = DECL[pid]
         return interface.Property(name, sig, readable=access in ('read', 'readwrite'), writeable=access in ('write', 'readwrite'),
                                   emitsOnChange={'true': True, 'false': False, 'invalidates': 'invalidates'}[emits])
+    # the process also knows interfaces of these names with OTHER declarations (say, from introspecting an older peer):
+    # what an object answers must come from the interfaces its class lists
+    for n in sorted(set(d[0] for d in DECL.values())):
+        interface.DBusInterface(n, *[interface.Property(DECL[p][1], 's', readable=DECL[p][3] == 'write', writeable=False,
+                                                        emitsOnChange=DECL[p][4] != 'true')
+                                     for p in DECL if DECL[p][0] == n])
     ifs = {n: interface.DBusInterface(n, *[prop(p) for p in DECL if DECL[p][0] == n], noRegister=True)
            for n in sorted(set(d[0] for d in DECL.values()))}
     base_attrs = {}
